@@ -529,6 +529,30 @@ func init() {
 				}
 			}
 		}
+		// a tag of the body that FAILS WITHOUT BEING FATAL (a print whose modifier returns an error prints nothing and
+		// leaves the error in ctx.Err): the loop does all its iterations, what follows it is rendered, a loop around it
+		// does all of ITS iterations, and a later range loop over an unset variable does not report that error —
+		// in the same render and in the next one on the same context without Reset
+		for _, inner := range []string{`{% for j := 0; j < 2; j++ %}{%= j|vfail() %}.{% endfor %}`, `{% for j := 0; j < 2; j++ %}<{%= si|vfail() %}>{% if j == 0 %}{%= j %}{% endif %}{% endfor %}`,
+			`{% for j := 0; j < 3; j++ sep , %}{%= ss|vfail() %}{% endfor %}`, `{% for j := 0; j < 2; j++ %}{% for k := 0; k < 2; k++ %}{%= k|vfail() %}:{% endfor %}{% endfor %}`,
+			`{% for j := 0; j < 2; j++ %}{%= j|vfail() %}{% continue %}{% endfor %}`, `{% for j := 0; j < 3; j++ %}{%= j|vfail() %}{% break if j == 1 %}-{% endfor %}`,
+			`{% for j := 0; j < 2; j++ %}{%= j|vfail() %}{% lazybreak %}+{% endfor %}`, `<{%= si|vfail() %}>{% for _, q := range nosuch %}x{% endfor %}`,
+			`<{%= si|vfail() %}>{% for _, q := range nosuch %}x{% else %}E{% endfor %}`, `{% for _, q := range lst %}{%= q|vfail() %};{% endfor %}`} {
+			for _, outer := range []string{``, `{% for i := 0; i < 3; i++ %}`, `{% for _, v := range lst %}`, `{% for i := 0; i < 2; i++ %}{% for _, v := range lst %}`} {
+				end := strings.Repeat(`{% endfor %}`, strings.Count(outer, `{% for`))
+				lead := ""
+				if outer != "" {
+					lead = "["
+				}
+				src := outer + lead + inner + strings.Replace(lead, "[", "]", 1) + end + `after{%= si %}`
+				c := &RCase{Tpls: []TplDef{{Key: "main", Src: src, KeepFmt: true}, {Key: "later", Src: `{% for _, q := range nosuch %}x{% endfor %}ok{%= si %}`, KeepFmt: true}},
+					Meta: map[string]any{"non-fatal-error-in-loop-body": inner, "outer": outer}}
+				c.Ops = []SOp{{Kind: "static", Name: "si", Val: int64(7)}, {Kind: "static", Name: "ss", Val: "s"}, {Kind: "strs", Name: "lst", Val: []string{"a", "b", "c"}},
+					{Kind: "render", Key: "main"}, {Kind: "render", Key: "later"}, {Kind: "render", Key: "main"}}
+				cases = append(cases, c)
+				r.Dist["non-fatal-error-in-loop-body"]++
+			}
+		}
 		runSessions(r, cases, outputDiffers)
 		loopVarNames(r)
 		indexedRangeSource(r)
